@@ -139,12 +139,12 @@ def run(cfg):
     f = lib.fn('ace_time::TimeOffset::forHourMinute')
     s = _sx(lib, inline=('TimeOffset::forMinutes',)).run(f.name, f.body, {})
     h, m = (Poly.atom(('sym', p)) for p, _ in f.params)
-    ok = False
+    ok = bool(s.paths)
     for g, kind, res, eff in s.paths:
         a = _atom(_P(res)) if res is not None else None
-        if a and a[0] == 'init' and len(a[2]) == 1:
-            ok = _P(a[2][0]) == h * Poly.const(60) + m
-    ob('R2', f.name, f.loc, ok, 'forHourMinute is not 60*hour + minute')
+        if not (a and a[0] == 'init' and len(a[2]) == 1 and _P(a[2][0]) == h * Poly.const(60) + m):
+            ok = False          # every path, not just one of them
+    ob('R2', f.name, f.loc, ok, 'forHourMinute is not 60*hour + minute on every path')
     f = lib.fn('ace_time::TimeOffset::toHourMinute')
     sx = _sx(lib, inline=('TimeOffset::toMinutes',))
     sx.out_params = {p for p, t in f.params if t and '&' in t}
@@ -194,40 +194,41 @@ def run(cfg):
 
 
 def mutation_helpers(R, lib, ob):
-    """Each helper is interpreted (E-SEQ, typed: integer locals, parameters and conversions wrap to their declared width,
-    reference parameters are bound to the caller's cell) on an abstract object for *every* value the field's type can
-    hold.  The accessors of the value class are the abstraction boundary (a getter reads the abstract field, a setter
-    stores its argument converted to its parameter type); ace_common::incrementMod / incrementModOffset are interpreted
-    through the bodies the shim gives them.  Afterwards exactly that field must hold "one more, wrapping from
-    modulus + offset - 1 to offset" computed in the field's own type, and no other field may have changed - however the
-    helper spells it (a call of the AceCommon helper, a wrapper of its own, explicit arithmetic)."""
-    from .aeval import AEval, AObj, CxxModule, Raised
+    """Each helper is interpreted (E-SEQ, typed: integer locals, fields, parameters and conversions wrap to their declared
+    width, reference parameters are bound to the caller's cell, objects are trees of their real fields) on an object of the
+    value class for *every* value the field's type can hold; the field is written and read back through the class's own
+    accessors, which are interpreted through their bodies like everything else (ace_common::incrementMod /
+    incrementModOffset through the bodies the shim gives them).  Afterwards exactly that field must hold "one more, wrapping
+    from modulus + offset - 1 to offset" computed in the field's own type, and no other field may have changed - however
+    the helper spells it (a call of the AceCommon helper, a wrapper of its own, explicit arithmetic)."""
+    from .aeval import AEval, CxxModule, Raised, cxx_object
     from .cxx import int_type
-    mod = CxxModule(lib, ['ace_time::zoned_date_time_mutation::', 'ace_time::time_period_mutation::', 'ace_common::'])
+    mod = CxxModule(lib, ['ace_time::', 'ace_common::'])
     classes = {'ace_time::ZonedDateTime': ['yearTiny', 'month', 'day', 'hour', 'minute', 'second'],
                'ace_time::TimePeriod': ['hour', 'minute', 'second', 'sign']}
-    intr = {}
     ftype = {}
-    epoch = lib.const('ace_time::LocalDate::kEpochYear')
     for cls, flds in classes.items():
         for fld in flds:
-            getters = [g for g in lib.fns('%s::%s' % (cls, fld)) if not g.params]
             setters = [g for g in lib.fns('%s::%s' % (cls, fld)) if len(g.params) == 1]
+            getters = [g for g in lib.fns('%s::%s' % (cls, fld)) if not g.params]
             if not getters or not setters:
                 raise AnalysisError('anchor vanished: accessor pair %s::%s' % (cls, fld))
-            gt, st = int_type(getters[0].ret), int_type(setters[0].params[0][1])
-            ftype[(cls, fld)] = st
+            ftype[(cls, fld)] = int_type(setters[0].params[0][1])
 
-            def acc(ev, recv, args, fld=fld, gt=gt, st=st):
-                if not isinstance(recv, AObj):
-                    raise AnalysisError('abstract evaluation: accessor %s on %r' % (fld, recv))
-                if not args:
-                    return AEval._wrap(recv.attrs[fld], gt)
-                recv.attrs[fld] = AEval._wrap(args[0], st)
-                return None
-            intr['%s::%s' % (cls, fld)] = acc
-    # year() / year(y) of ZonedDateTime are views of yearTiny
-    intr['ace_time::ZonedDateTime::year'] = lambda ev, recv, args: (recv.attrs['yearTiny'] + epoch) if not args else recv.attrs.__setitem__('yearTiny', AEval._wrap(args[0] - epoch, (8, True)))
+    def ev():
+        return AEval(module=mod, typed=True, max_steps=500000)
+
+    def put(obj, cls, fld, v):
+        ev().call_function('%s::%s' % (cls, fld), [v], recv=obj)
+
+    def get(obj, cls, fld):
+        return ev().call_function('%s::%s' % (cls, fld), [], recv=obj)
+
+    def fresh(cls, values):
+        obj = cxx_object(lib, cls)
+        for fld, v in values.items():
+            put(obj, cls, fld, v)
+        return obj
 
     def ref(v, m, off, it):
         d = AEval._wrap(v - off, it)
@@ -252,18 +253,20 @@ def mutation_helpers(R, lib, ob):
             others = {x: 3 + i for i, x in enumerate(classes[cls]) if x != fld}
             if 'sign' in others:
                 others['sign'] = 1
-            obj = AObj(dict(others, **{fld: v}), oid='obj', cls=cls)
+            obj = fresh(cls, dict(others, **{fld: v}))
             try:
-                AEval(module=mod, intrinsics=intr, typed=True).call_function(q, [obj] + list(extra), chosen=mod.select(q, nargs, [None] * nargs))
+                ev().call_function(q, [obj] + list(extra), chosen=mod.select(q, nargs, [None] * nargs))
+                got = get(obj, cls, fld)
+                now = {x: get(obj, cls, x) for x in others}
             except Raised as r_:
                 bad = '%s = %d: raises %s' % (fld, v, r_.what)
                 break
             n += 1
             want = ref(v, m, off, it)
-            changed = sorted(x for x in others if obj.attrs[x] != others[x])
-            if obj.attrs[fld] != want or changed:
+            changed = sorted(x for x in others if now[x] != others[x])
+            if got != want or changed:
                 bad = ('%s = %d becomes %s%s; expected %d (one more, wrapping at %d%s, in the %sint%d_t the field is stored in)'
-                       % (fld, v, obj.attrs[fld], (' and %s changes as well' % ', '.join(changed)) if changed else '', want, m, (' from %d' % off) if off else '',
+                       % (fld, v, got, (' and %s changes as well' % ', '.join(changed)) if changed else '', want, m, (' from %d' % off) if off else '',
                           '' if it[1] else 'u', it[0]))
                 break
         return f, bad, n
@@ -288,15 +291,19 @@ def mutation_helpers(R, lib, ob):
         if bad:
             R.violation('R3', q + '(period,limit)', f.loc, 'limit %d: %s' % (limit, bad))
             break
-    # negate: only the sign, to its opposite
+    # negate: only the sign, to its opposite - also for field values a constructor would not produce (setters do not
+    # normalise: 75 minutes stay 75 minutes)
     q = 'ace_time::time_period_mutation::negate'
     f = lib.fn(q)
     bad = None
-    for sg in (-1, 1):
-        obj = AObj({'hour': 3, 'minute': 4, 'second': 5, 'sign': sg}, oid='obj', cls='ace_time::TimePeriod')
-        AEval(module=mod, intrinsics=intr, typed=True).call_function(q, [obj], chosen=mod.select(q, 1, [None]))
-        if obj.attrs != {'hour': 3, 'minute': 4, 'second': 5, 'sign': -sg}:
-            bad = 'a period with sign %d becomes %r' % (sg, obj.attrs)
+    cls = 'ace_time::TimePeriod'
+    for vals in ({'hour': 3, 'minute': 4, 'second': 5}, {'hour': 3, 'minute': 75, 'second': 61}, {'hour': 255, 'minute': 59, 'second': 59}, {'hour': 0, 'minute': 0, 'second': 0}):
+        for sg in (-1, 1):
+            obj = fresh(cls, dict(vals, sign=sg))
+            ev().call_function(q, [obj], chosen=mod.select(q, 1, [None]))
+            now = {x: get(obj, cls, x) for x in ('hour', 'minute', 'second', 'sign')}
+            if now != dict(vals, sign=-sg):
+                bad = 'a period %r with sign %d becomes %r' % (vals, sg, now)
     ob('R1', q, f.loc, bad is None, 'negate() does not write exactly sign := -sign: %s' % bad)
 
 
